@@ -2,6 +2,7 @@ package main
 
 import (
 	"bytes"
+	"crypto/sha256"
 	"fmt"
 	"math/rand"
 	"os"
@@ -384,18 +385,104 @@ func oracle(res *corr.Result, c *diffCase, out []byte, panicked bool) int {
 
 // ---------------------------------------------------------------- run
 
+const batchSize = 60000
+
 func runDiff(tier string, seed int64, model string, replay string) *corr.Result {
 	res := corr.NewResult("diff", tier, seed)
 	r := rand.New(rand.NewSource(seed))
 	var cases []*diffCase
-	seen := map[string]bool{}
+	seen := map[[32]byte]bool{}
+	nontrivial, total, evals := 0, 0, 0
+	var firstCase, lastCase map[string]string
+	driverFailed := false
+
+	// flush runs one batch through implementation, model and oracle.
+	flush := func() {
+		if len(cases) == 0 || driverFailed {
+			cases = cases[:0]
+			return
+		}
+		req := make([]string, 0, len(cases)*2)
+		for _, c := range cases {
+			req = append(req, c.enc())
+		}
+		// the model's own (verified) applier on the model's hunks: all non-exhaustive cases, a sample of the others
+		var chk []int
+		for i, c := range cases {
+			if c.origin != "exhaustive" || (total+i)%17 == 0 {
+				chk = append(chk, i)
+				req = append(req, "chk "+corr.Hx(c.old)+" "+corr.Hx(c.new))
+			}
+		}
+		modelOut, err := mdl.Run(model, nil, req, 0)
+		if err != nil {
+			res.Observations = append(res.Observations, "model driver error: "+err.Error())
+			res.Disagree("<driver>", "", err.Error())
+			driverFailed = true
+			cases = cases[:0]
+			return
+		}
+		nh := make([]int, len(cases))
+		for i, c := range cases {
+			out, panicked := safeDiff(c)
+			impl := corr.Hx(out)
+			if panicked {
+				impl = "panic"
+			}
+			if impl != modelOut[i] {
+				res.Disagree(req[i], impl, modelOut[i])
+			}
+			nh[i] = oracle(res, c, out, panicked)
+			if !bytes.Equal(c.old, c.new) {
+				nontrivial++
+			}
+			res.Distribution["origin:"+c.origin]++
+			res.Distribution[fmt.Sprintf("hunks=%d", min(nh[i], 5))]++
+			nl := bytes.Count(c.old, []byte("\n")) + bytes.Count(c.new, []byte("\n"))
+			switch {
+			case nl <= 12:
+				res.Distribution["lines<=12"]++
+			case nl <= 100:
+				res.Distribution["lines<=100"]++
+			default:
+				res.Distribution["lines>100"]++
+			}
+			if (len(c.old) > 0 && c.old[len(c.old)-1] != '\n') || (len(c.new) > 0 && c.new[len(c.new)-1] != '\n') {
+				res.Distribution["missing-final-newline"]++
+			}
+		}
+		for j, i := range chk {
+			line := modelOut[len(cases)+j]
+			if nh[i] < 0 {
+				continue
+			}
+			if want := fmt.Sprintf("A=1 U=1 H=%d", nh[i]); line != want {
+				res.Disagree(req[len(cases)+j], want, line)
+			}
+			res.Distribution["model-applier-checked"]++
+		}
+		if firstCase == nil {
+			firstCase = map[string]string{"case": req[0], "model": modelOut[0]}
+			if len(cases) > 1 {
+				res.Samples = append(res.Samples, map[string]string{"case": req[len(cases)/2], "model": modelOut[len(cases)/2]})
+			}
+		}
+		lastCase = map[string]string{"case": req[len(cases)-1], "model": modelOut[len(cases)-1]}
+		total += len(cases)
+		evals += len(req)
+		cases = cases[:0]
+	}
 	add := func(c *diffCase) {
-		k := c.oldName + "\x00" + c.newName + "\x00" + string(c.old) + "\x00" + string(c.new)
+		k := sha256.Sum256([]byte(c.oldName + "\x00" + c.newName + "\x00" + string(c.old) + "\x00" + string(c.new)))
 		if !seen[k] {
 			seen[k] = true
 			cases = append(cases, c)
+			if len(cases) >= batchSize {
+				flush()
+			}
 		}
 	}
+
 	if replay != "" {
 		c, err := decCase(replay)
 		if err != nil {
@@ -405,12 +492,12 @@ func runDiff(tier string, seed int64, model string, replay string) *corr.Result 
 		}
 		add(c)
 	} else {
-		l3, l2, nrand, maxLines := 4, 6, 5000, 400
+		l3, l2, nrand, maxLines := 4, 6, 15000, 400
 		if tier == "thorough" {
-			l3, l2, nrand = 5, 7, 150000
+			l3, l2, nrand = 5, 7, 400000
 		}
 		if os.Getenv("VERIF_SEARCH") != "" {
-			nrand *= 2
+			nrand = nrand * 3 / 2
 		}
 		var spaces []string
 		for _, sp := range []struct {
@@ -436,73 +523,15 @@ func runDiff(tier string, seed int64, model string, replay string) *corr.Result 
 			add(randCase(r, maxLines))
 		}
 	}
+	flush()
 
-	req := make([]string, 0, len(cases)*2)
-	for _, c := range cases {
-		req = append(req, c.enc())
-	}
-	// the model's own (verified) applier on the model's hunks, for the non-exhaustive cases
-	var chk []int
-	for i, c := range cases {
-		if c.origin != "exhaustive" || i%17 == 0 {
-			chk = append(chk, i)
-			req = append(req, "chk "+corr.Hx(c.old)+" "+corr.Hx(c.new))
-		}
-	}
-	modelOut, err := mdl.Run(model, nil, req, 0)
-	if err != nil {
-		res.Observations = append(res.Observations, "model driver error: "+err.Error())
-		res.Disagree("<driver>", "", err.Error())
-		return res
-	}
-	nontrivial := 0
-	nh := make([]int, len(cases))
-	for i, c := range cases {
-		out, panicked := safeDiff(c)
-		impl := corr.Hx(out)
-		if panicked {
-			impl = "panic"
-		}
-		if impl != modelOut[i] {
-			res.Disagree(req[i], impl, modelOut[i])
-		}
-		nh[i] = oracle(res, c, out, panicked)
-		if !bytes.Equal(c.old, c.new) {
-			nontrivial++
-		}
-		res.Distribution["origin:"+c.origin]++
-		res.Distribution[fmt.Sprintf("hunks=%d", min(nh[i], 5))]++
-		nl := bytes.Count(c.old, []byte("\n")) + bytes.Count(c.new, []byte("\n"))
-		switch {
-		case nl <= 12:
-			res.Distribution["lines<=12"]++
-		case nl <= 100:
-			res.Distribution["lines<=100"]++
-		default:
-			res.Distribution["lines>100"]++
-		}
-		if (len(c.old) > 0 && c.old[len(c.old)-1] != '\n') || (len(c.new) > 0 && c.new[len(c.new)-1] != '\n') {
-			res.Distribution["missing-final-newline"]++
-		}
-	}
-	for j, i := range chk {
-		line := modelOut[len(cases)+j]
-		want := fmt.Sprintf("A=1 U=1 H=%d", nh[i])
-		if nh[i] < 0 {
-			continue
-		}
-		if line != want {
-			res.Disagree(req[len(cases)+j], want, line)
-		}
-		res.Distribution["model-applier-checked"]++
-	}
-	res.Evaluations = len(req)
+	res.Evaluations = evals
 	res.DistinctNontrivial = nontrivial
-	res.Rule = "distinct (oldName, old, newName, new) cases with old ≠ new (so that a diff with at least one hunk must be produced); each is run through diff.Diff and the Lean model and the exact output bytes compared; the implementation's output is parsed and applied / reverse-applied by an independent Go patch applier; for the random cases the model's verified applier is also run on the model's hunks and the hunk count compared with the parsed one"
-	for _, i := range []int{0, 1, len(cases) / 2, len(cases) - 1} {
-		if i >= 0 && i < len(cases) {
-			res.Samples = append(res.Samples, map[string]string{"case": req[i], "model": modelOut[i]})
-		}
+	res.Distribution["cases"] = total
+	res.Rule = "distinct (oldName, old, newName, new) cases with old ≠ new (so that a diff with at least one hunk must be produced); each is run through diff.Diff and the Lean model and the exact output bytes compared; the implementation's output is parsed and applied / reverse-applied by an independent Go patch applier; for the random cases (and a sample of the exhaustive ones) the model's verified applier is also run on the model's hunks and the hunk count compared with the parsed one (these runs are counted in evaluations, not in distinct_nontrivial)"
+	if firstCase != nil {
+		res.Samples = append([]any{firstCase}, res.Samples...)
+		res.Samples = append(res.Samples, lastCase)
 	}
 	return res
 }
